@@ -23,15 +23,18 @@ use mos_core::parser::parse_expression;
 use serde::de::DeserializeOwned;
 use serde::Serialize;
 use std::collections::HashMap;
+use std::net::TcpStream;
 use std::path::PathBuf;
 use std::sync::atomic::{AtomicBool, Ordering};
 use std::sync::{Arc, Mutex, MutexGuard, RwLock, RwLockReadGuard, RwLockWriteGuard};
 use std::thread::JoinHandle;
+use std::time::{Duration, Instant};
 
 pub struct DebugServer {
     lsp: Arc<Mutex<LspContext>>,
     shutdown: Arc<AtomicBool>,
     thread: Option<JoinHandle<()>>,
+    port: Option<u16>,
 }
 
 impl DebugServer {
@@ -42,12 +45,14 @@ impl DebugServer {
             lsp,
             shutdown,
             thread: None,
+            port: None,
         }
     }
 
     pub fn start(&mut self, port: u16) -> MosResult<()> {
         let thread_shutdown = self.shutdown.clone();
         let lsp = self.lsp.clone();
+        self.port = Some(port);
         self.thread = Some(std::thread::spawn(move || {
             while !thread_shutdown.load(Ordering::Relaxed) {
                 #[cfg(datatrash_mos_verif)]
@@ -70,10 +75,27 @@ impl DebugServer {
 
     pub fn join(self) -> MosResult<()> {
         self.shutdown.store(true, Ordering::Relaxed);
-        self.thread
-            .unwrap()
-            .join()
-            .expect("Could not join debugger thread");
+
+        // The thread only looks at the shutdown flag in between two debug sessions.
+        // So, tell a session that is still active to end (the LSP may have stopped without a shutdown request)...
+        self.lsp.lock().unwrap().invoke_shutdown_handlers();
+
+        // ...and wake up the thread when it is waiting for a debugger to connect. A session that is busy
+        // (e.g. stepping over a subroutine that never returns) will not react, and should not keep the
+        // process alive: after a little while the thread is left behind.
+        let thread = self.thread.unwrap();
+        let deadline = Instant::now() + Duration::from_secs(2);
+        while !thread.is_finished() && Instant::now() < deadline {
+            if let Some(port) = self.port {
+                let _ = TcpStream::connect(("127.0.0.1", port));
+            }
+            std::thread::sleep(Duration::from_millis(10));
+        }
+        if thread.is_finished() {
+            thread.join().expect("Could not join debugger thread");
+        } else {
+            log::debug!("Debugger thread is still busy. Not waiting for it any longer.");
+        }
         Ok(())
     }
 }
